@@ -642,7 +642,7 @@ def sweeps(ctx):
             nfail += 1
             if 'case' in f:
                 report_case(ctx, f['case'], f['impl'], [tuple(b) for b in f['bad']])
-        if o.get('crashed_chunks', 0) >= 8:
+        if o.get('crashed_chunks', 0) >= 2:
             log('[C15] sweep %s stopped early after repeated crashes of the implementation' % key)
     return dist, nfail
 
